@@ -150,6 +150,9 @@ def run(ctx):
     if len({tuple(c["hsamples"]) for c in r.cases}) != 1:
         raise core.MachineryError("Translation.tla: pattern depends on the start")
     taus = [t * TICK for t in TAUS_TICKS]
+    # far from the origin (binary-exact, so that the shifted grid is exactly representable): anything that compares or
+    # caches times with a relative tolerance shows here.  Parts (a), (c), (d) compare with start-free specifications.
+    far = [131072.0, -65536.09375]
 
     # (a) Tempo / PtTempo with time-dependent clock Hamiltonians, every tau
     consts = {"MaxN": str(n), "MinN": str(n), "KSet": "{1,2,1000}", "ASet": "{1000,1}",
@@ -157,7 +160,7 @@ def run(ctx):
     cases = ieng.generate(ctx, consts, "time-dependent clock systems (states do not mention the start time)")
     jobs = []
     for idx, case in enumerate(cases):
-        for ti, tau in enumerate(taus):
+        for ti, tau in enumerate(taus + far):
             if quick and (idx + ti) % 2:
                 continue
             jobs.append({"case": case, "variant": {"sysmode": "td", "subdiv": None if ti % 2 == 0 else 64, "start": tau},
@@ -179,10 +182,10 @@ def run(ctx):
     ck = '{"int","f-","f+"}'
     cr = ctx.tlc("PTContract", c18.CFG, label="control schedules with float times", workers=4,
                  constants={"D": "3", "EDims": "<<3>>", "A0": "<<1>>", "N": "2", "M": "6", "SysGates": "{<<1,2>>}",
-                            "EnvGates": '{"CSP"}', "Controls": c18.schedules(2, '{"f-","f+"}', "{2,5}", 2 if not quick else 1),
+                            "EnvGates": '{"CSP"}', "Controls": c18.schedules(2, '{"f-","f+"}', "{2,5}", 2),
                             "Devs": "{}", "FixedPlan": "<< >>", "Dephase": "FALSE", "Emit": "TRUE"})
     cjobs = [{"case": c, "variant": {"start": tau, "dt": DT}, "seed": ctx.seed}
-             for c in cr.cases for tau in taus
+             for c in cr.cases for tau in taus + far
              # one float control per step and side (mixed orders are C18's known finding)
              if len({(x[0], x[1]) for x in c["ctl"]}) == len(c["ctl"])]
     for job, mm in zip(cjobs, core.pmap(eng.run_case, cjobs, chunksize=8)):
@@ -207,7 +210,7 @@ def run(ctx):
     corr = ctx.tlc("Correlations", c07.CORR_CFG, label="float time specifications", workers=1,
                    constants={"N": "3", "SpecSets": "<<%s, %s>>" % (fl, fl), "Devs": "{}", "Emit": "TRUE"})
     djobs = [{"case": c, "mode": "ord", "base": base, "vals": vals, "seed": ctx.seed, "start": tau}
-             for i, c in enumerate(corr.cases) for ti, tau in enumerate(taus) if not quick or (i + ti) % 3 == 0]
+             for i, c in enumerate(corr.cases) for ti, tau in enumerate(taus + far) if not quick or (i + ti) % 3 == 0]
     for job, mm in zip(djobs, core.pmap(c07.run_corr, djobs, chunksize=8)):
         ctx.case({"part": "d", "specs": job["case"]["specs"], "tau": job["start"]}, nontrivial=job["start"] != 0)
         for x in mm:
@@ -219,7 +222,7 @@ def run(ctx):
         ctx.case({"part": "e", "tau": j[0], "system": j[1]}, nontrivial=True)
         for x in mm:
             ctx.violation("C15:estimate:%s" % x["what"], "tau=%s %s: %s" % (j[0], j[1], x), {"e": list(j)})
-    ctx.rule = ("shifts tau in {0, 1.0, -0.3, 0.37 dt} x (a) Influence.tla behaviours with time-dependent Hamiltonians through "
+    ctx.rule = ("shifts tau in {0, 1.0, -0.3, 0.37 dt; for (a), (c), (d) also 131072 and -65536.09375} x (a) Influence.tla behaviours with time-dependent Hamiltonians through "
                 "Tempo and PtTempo+compute_dynamics, (b) mean-field methods, (c) float control schedules, (d) float correlation "
                 "time specifications, (e) parameters estimated from a time-dependent system; non-trivial = tau != 0")
     ctx.exhaustive = False
